@@ -723,6 +723,8 @@ class LabelIndexer:
     def sym_getitem(self, it, key):
         t = self.table
         col = self.col
+        if col is None and isinstance(key, LabelList) and key.table is t:
+            return t        # .loc[all labels]: all rows in table order
         if col is None:
             if not isinstance(key, tuple) or len(key) != 2:
                 raise EngineError(f".loc[{key!r}] without column")
@@ -880,6 +882,26 @@ def table_attr(it, t, name):
     raise EngineError(f"DataFrame.{name} not modelled")
 
 
+class LabelList:
+    """list(df.index): the labels of all rows of a table (members may be removed: the list then names a subset of the rows)"""
+
+    def __init__(self, table):
+        self.table = table
+        self.removed = []
+
+    def sym_len(self, it):
+        return SV(self.table.space.n)
+
+    def arr(self):
+        return Arr(self.table.space, self.table.index_e, True)
+
+
+def labellist_attr(it, ll, name):
+    if name == "remove":
+        return Native(lambda it, x: ll.removed.append(x), name="remove", pure=False)
+    raise EngineError(f"list of labels: .{name}")
+
+
 class IndexVal:
     def __init__(self, table):
         self.table = table
@@ -895,6 +917,9 @@ class IndexVal:
 
     def sym_set(self, it):
         return Opaque("set(index)")
+
+    def sym_list(self, it):
+        return LabelList(self.table)
 
     def sym_binop(self, it, op, a, b):
         return elementwise(it, lambda x, y: it.binop(op, x, y), a.arr() if isinstance(a, IndexVal) else a,
@@ -973,6 +998,7 @@ def cat_attr(it, c, name):
 def install(it):
     tabletheory.install(it)
     it.attr_hooks.append((Cat, cat_attr))
+    it.attr_hooks.append((LabelList, labellist_attr))
     it.attr_hooks.append(((bool, int, float), pyscalar_attr))
     it.attr_hooks.append((Mat, mat_attr))
     it.attr_hooks.append((Rows, rows_attr))
